@@ -600,7 +600,16 @@ func (r *Run) Loop(done func() bool, idleLimit time.Duration) {
 // tick moves the simulated clock by one microsecond before every release, so that timers armed
 // in different steps never share a deadline instant: the order in which same-instant timers fire
 // relative to the goroutines they wake is not under the simulator's control.
-func tick() { time.Sleep(time.Microsecond) }
+//
+// A timer of the system under test can fall exactly on the instant the controller's own sleep
+// ends (a 1 ms context deadline armed on a tick boundary does, a thousand ticks later). Which of
+// the two the runtime serves first is not ours to decide, so the controller waits for quiescence
+// again before it releases anything: whatever the expired timer set in motion has run to its next
+// parking point by then, in either order.
+func tick() {
+	time.Sleep(time.Microsecond)
+	synctest.Wait()
+}
 
 // FairDrain is the liveness phase: faults are off, stalls end, and every enabled actor is
 // released round-robin; the clock advances when nothing is enabled. It returns when done()
